@@ -775,6 +775,29 @@ def judge_invoke(ctx, case, resp):
     return judge_coercion(ctx, "invoke", target, case["value"], resp[0]["values"][0], resp[1]["values"][0])
 
 
+def gen_result(src):
+    c = gen_coerce(src, typed_fn=True)
+    return {"target": c["target"], "value": c["value"], "nparams": src.weighted([(3, 0), (3, 1), (2, 2)]), "named": src.bool(0.4)}
+
+
+def reqs_result(case):
+    t = R.from_case(case["target"])
+    return [{"op": "c16", "types": [R.to_driver(t)],
+             "queries": [["invoke-result", 0, R.to_driver_value(case["value"]), case["nparams"], case["named"]]]}]
+
+
+def judge_result(ctx, case, resp):
+    """the result of a function with a declared result type is coerced to that type, whatever the number of its parameters and however
+    the arguments are given"""
+    target = R.from_case(case["target"])
+    r = resp[0]
+    if "answers" not in r:
+        return Fail("C16/invoke-failed", "invoking a function with %d parameters and result type %s failed: %r" % (case["nparams"], R.show(target), r))
+    a = r["answers"][0]
+    ctx.classes["result/params=%d/%s" % (case["nparams"], "named" if case["named"] else "positional")] += 1
+    return judge_coercion(ctx, "result", target, case["value"], a["value"], a["twice"])
+
+
 # ====================================================================================================
 
 def setup(ctx):
@@ -798,6 +821,7 @@ def setup(ctx):
     ctx.p_universe = ctx.register(Part("universe2", gen_universe, reqs_universe, judge_universe))
     ctx.p_coerce = ctx.register(Part("coerce", gen_coerce, reqs_coerce, judge_coerce))
     ctx.p_invoke = ctx.register(Part("invoke", gen_invoke, reqs_invoke, judge_invoke))
+    ctx.p_result = ctx.register(Part("result", gen_result, reqs_result, judge_result))
 
 
 def run(ctx):
@@ -819,6 +843,7 @@ def run(ctx):
     ctx.forall(ctx.p_universe, ctx.scale(3000, 400000), batch=100)
     ctx.forall(ctx.p_coerce, ctx.scale(60000, 3000000))
     ctx.forall(ctx.p_invoke, ctx.scale(15000, 600000))
+    ctx.forall(ctx.p_result, ctx.scale(15000, 600000))
 
 
 if __name__ == "__main__":
